@@ -19,7 +19,8 @@ namespace Loop
 
 /-! ### the obligations of (b) -/
 
-/-- both repairs are present in the extracted source -/
+/-- both repairs are present in the extracted source, and a connection is counted by the accept loop itself — before its
+thread exists — not by that thread (seeded change C33-4: `Findings.Loop.handler_side_count_exits_under_a_connection`) -/
 theorem C33_loop_shape : Shape.extracted = Shape.repaired := by decide
 
 /-- the structural facts the model relies on hold in the extracted source: the three shared variables are only
@@ -35,7 +36,7 @@ at every idle stop all accepted connections have finished and the zero-connectio
 theorem C33_shutdown (cfg : Cfg) :
     ∀ s, (ts Shape.extracted cfg).Reachable s → Spec.WorkerOk (idleOf cfg) cfg.grace s.hist := by
   intro s hr
-  have hi := inv_reachable (sh := Shape.extracted) (by decide) (by decide) cfg s hr
+  have hi := inv_reachable (sh := Shape.extracted) (by decide) (by decide) (by decide) cfg s hr
   unfold Spec.WorkerOk
   rw [← hi.monHist]; exact hi.bad
 
@@ -47,7 +48,7 @@ theorem C33_shutdown_step (cfg : Cfg) (s s' : St) (hr : (ts Shape.extracted cfg)
     s.connCount = 0 ∧ s.live = [] ∧ s.mon.openConns = [] ∧ lHolds s.lpc = false ∧
     s.mon.last + Spec.need (idleOf cfg) cfg.grace s.mon.any ≤ s.now ∧ s.sinceDec = false ∧
     s'.lpc = .exiting true := by
-  have hi := inv_reachable (sh := Shape.extracted) (by decide) (by decide) cfg s hr
+  have hi := inv_reachable (sh := Shape.extracted) (by decide) (by decide) (by decide) cfg s hr
   simp only [step] at hst
   split at hst
   next hl =>
